@@ -364,9 +364,11 @@ Fixpoint exec (pol : policy) (p : prog) (cid fl : N) (it : bool) (s : mstate) {s
              the native caller fail: "unhandled exception" *)
           match (if is_contract to then exec pol cb to fAll false s3 else Normal s3) with
           | Normal s4 =>
-              if exc s4 && (is_contract to || (negb (d1 =? 0) && is_contract cid) || (negb (d2 =? 0) && is_contract to))
-              then Fault (mark true s4)
-              else Normal (leave w base (mint_state to d2 (mint_state cid d1 s4)))
+              if exc s4 && is_contract to then Fault (mark true s4)          (* the NEO payment callback *)
+              else
+                let s5 := mint_state cid d1 s4 in                            (* the sender's claim, with its callback *)
+                if exc s4 && negb (d1 =? 0) && is_contract cid then Fault (mark true s5)
+                else Normal (leave w base (mint_state to d2 s5))             (* a receiving contract was dealt with above *)
           | Thrown s4 => Fault s4
           | Fault s4 => Fault s4
           end
